@@ -385,55 +385,43 @@ def rule_R5(P, rep):
         C = P.fn(create, file)
         R = P.fn(read, file)
 
-        def member_by_case(F):
+        def by_type(F, writer):
+            """{enumerator: (set of union members touched, [canonical value written / None])} per path; the arm is the
+            last `<x> == ENUMERATOR` test that holds on the path (a `case` label or a link of an if-chain)."""
             out = {}
-            for bid, B in F.blocks.items():
-                if B.casename:
-                    mem = set()
-                    seen = set()
-                    st = [bid]
-                    while st:
-                        x = st.pop()
-                        if x in seen:
-                            continue
-                        seen.add(x)
-                        for i in F.blocks[x].elems:
-                            nd = F.nodes[i]
-                            if nd.get("k") == "mem" and nd["f"].startswith("v_"):
-                                mem.add(nd["f"])
-                            if nd.get("k") == "call" and nd.get("fn") and "create_element_" in nd["fn"]:
-                                G = P.fn(nd["fn"], file)
-                                for gn in G.nodes:
-                                    if gn and gn.get("k") == "mem" and gn["f"].startswith("v_"):
-                                        mem.add(gn["f"])
-                        if F.blocks[x].tk == "BreakStmt" or any(F.nodes[i].get("k") == "ret" for i in F.blocks[x].elems):
-                            continue
-                        for s in F.blocks[x].succs:
-                            if s is not None and not F.blocks[s].casename and not F.blocks[s].default:
-                                st.append(s)
-                    out[B.casename] = mem
-            return out
-        # the typed writer takes the value *through* the caller's pointer in every case (the reader stores through its
-        # pointer in every case): `set(key, PTR, &p)` stores p, not &p
+            vals = {}
+
+            def conds(t):
+                m = re.match(r"^(.*) == (%s)$" % "|".join(enums), t)
+                return ("arm:" + m.group(2)) if m else None
+            sel = seq.Sel(calls=lambda fn: "create_element_" in fn, reads={"v_int", "v_double", "v_ptr"},
+                          fields={"v_int", "v_double", "v_ptr"}, conds=conds, canon=True, locks=False)
+            for toks, kind, rv, rtxt in seq.sequences(F, sel, max_len=40):
+                arms = [t[1][4:] for t in toks if t[0] == "if" and t[1].startswith("arm:") and t[2]]
+                if not arms:
+                    continue
+                e = arms[-1]
+                mem = out.setdefault(e, set())
+                for t in toks:
+                    if t[0] in ("rd", "st"):
+                        mem.add(t[1].rsplit("::", 1)[-1].rsplit(".", 1)[-1])
+                    if t[0] == "call":
+                        G = P.fn(t[1], file)
+                        for gn in G.nodes:
+                            if gn and gn.get("k") == "mem" and gn["f"].startswith("v_"):
+                                mem.add(gn["f"])
+                        vals.setdefault(e, []).append((canon.expr(F, F.nodes[t[-1]]["a"][-1]), t[-1]))
+                    if t[0] == "st" and writer:
+                        vals.setdefault(e, []).append((str(t[3]), t[-1]))
+            return out, vals
+        (w, wvals), (r, _rv) = by_type(C, True), by_type(R, False)
+        # the typed writer takes the value *through* the caller's pointer in every arm (the reader stores through its
+        # pointer in every arm): `set(key, PTR, &p)` stores p, not &p
         vp = C.params[-1]["n"]
-        for bid, B in C.blocks.items():
-            if not B.casename:
-                continue
-            seen, st, calls = set(), [bid], []
-            while st:
-                x = st.pop()
-                if x in seen:
-                    continue
-                seen.add(x)
-                calls += [i for i in C.blocks[x].elems if C.nodes[i].get("k") == "call" and "create_element_" in (C.nodes[i].get("fn") or "")]
-                if C.blocks[x].tk == "BreakStmt":
-                    continue
-                st += [s2 for s2 in C.blocks[x].succs if s2 is not None and not C.blocks[s2].casename and not C.blocks[s2].default]
-            for i in calls[:1]:
-                got = canon.expr(C, C.nodes[i]["a"][-1])
-                rep.ob("R5", "%s: case %s stores the value the caller's pointer points to" % (rec_prefix, B.casename), got == "*" + vp,
-                       "stores `%s`, expected `*%s`" % (got, vp), loc=C.loc(i), site="%s/deref/%s" % (rec_prefix, B.casename))
-        w, r = member_by_case(C), member_by_case(R)
+        for e in enums:
+            for got, nid in wvals.get(e, [])[:1]:
+                rep.ob("R5", "%s: arm %s stores the value the caller's pointer points to" % (rec_prefix, e), got == "*" + vp,
+                       "stores `%s`, expected `*%s`" % (got, vp), loc=C.loc(nid), site="%s/deref/%s" % (rec_prefix, e))
         for e in enums:
             rep.ob("R5", "%s: %s is written and read through the same union member" % (rec_prefix, e),
                    e in w and e in r and w[e] == r[e] and len(w[e]) == 1, "writer %s reader %s" % (w.get(e), r.get(e)), loc=file,
